@@ -97,6 +97,10 @@ def d1(cx: Cx, ob: Ob) -> None:
 
 @obligation("C01-D2", "LOOKUP: parse_uri queries the trie with a longest-prefix API on the unmodified uri; the only failure path is the KeyError handler", floor=1)
 def d2(cx: Cx, ob: Ob) -> None:
+    check_parse_uri_lookup(cx, ob)
+
+
+def check_parse_uri_lookup(cx: Cx, ob: Ob) -> None:
     fn = cx.fn(f"{CONV}.parse_uri", ob.id)
     s = cx.summary(fn, ob.id)
     me = ("param", fn.self_name)
@@ -260,8 +264,31 @@ def curie_join_check(cx: Cx, ob: Ob, fn_name: str, base_pred, base_desc: str) ->
             continue
         if not base_pred(ca[0], me):
             ob.violate(fn.qualname, where(fn, line), f"{fn_name} formats `{show(ca[0])[:70]}`; expected {base_desc}", detail="base")
+            continue
+        success_conditions(ob, fn, ctx, ca[0], line)
     if n == 0:
         ob.undecide(f"{fn_name} has no success return")
+
+
+def success_conditions(ob: Ob, fn, ctx, base, line) -> None:
+    """On the success path the only test of the parsed result is whether it exists."""
+    for g in ctx.guards:
+        if g.kind != "guard":
+            continue
+        t = g.a
+        if t == base:
+            continue
+        if op(t) == "cmp" and t[2] == base and is_const(t[3], None):
+            continue
+        inner = [x for x in subterms(t) if op(x) in ("attr", "item", "call") and len(x) > 1 and x[1] == base] + [x for x in subterms(t) if op(x) == "call" and base in x[2]]
+        if inner:
+            ob.violate(
+                fn.qualname,
+                where(fn, line),
+                f"{fn.name} succeeds only if additionally `{'' if g.b else 'not '}{show(t)[:70]}`: inputs that parse are reported as failures",
+                witness="e.g. an empty identifier (the bare URI prefix / the CURIE 'prefix:') parses but is then rejected",
+                detail=f"extra-condition:{show(inner[0])[-30:]}",
+            )
 
 
 def format_curie_check(cx: Cx, ob: Ob) -> None:
@@ -311,7 +338,16 @@ def is_uri_check(cx: Cx, ob: Ob) -> None:
         if op(t) == "cmp" and t[1] in ("is not", "!=") and is_const(t[3], None):
             x = t[2]
         if x is None:
-            if self_call(t, me) and t[1][2] not in ("compress", "parse_uri"):
+            trieq = [c for c in subterms(t) if op(c) == "call" and op(c[1]) == "attr" and c[1][1] == ("attr", me, "trie")]
+            if op(t) == "call" and t[1] in (("builtin", "any"), ("builtin", "bool")) and trieq and callee_name(trieq[0]) in ("iter_prefixes", "iter_prefix_values", "longest_prefix", "longest_prefix_value", "keys", "values") and t[2] and t[2][0] == trieq[0]:
+                ob.violate(
+                    fn.qualname,
+                    fn.where,
+                    f"is_uri takes the truth value of the strings yielded by trie.{callee_name(trieq[0])}: an empty URI prefix (or the empty default CURIE prefix) is a match that counts as False",
+                    witness="Converter([Record(prefix='x', uri_prefix='')]): compress('abc') == 'x:abc' but is_uri('abc') is False",
+                    detail="truthiness-of-keys",
+                )
+            elif self_call(t, me) and t[1][2] not in ("compress", "parse_uri"):
                 ob.violate(fn.qualname, fn.where, f"is_uri is defined through `{show(t)[:60]}`, not through compress/parse_uri of its argument", detail="callee")
             else:
                 ob.undecide(f"is_uri returns `{show(t)[:70]}`, not a None-test")
@@ -361,3 +397,18 @@ def x3(cx: Cx, ob: Ob) -> None:
     from ..rules import cached_derivations
 
     cached_derivations(cx, ob)
+
+
+@obligation("C01-X5", "pairing (shared with C05-D4): every normally returning path of add_record merges or appends and then unconditionally re-indexes the changed record, so the lookup tables never lag behind the records", floor=2)
+def x5(cx: Cx, ob: Ob) -> None:
+    from .c05 import check_add_record_pairing
+
+    check_add_record_pairing(cx, ob)
+
+
+@obligation("C01-X6", "LOOKUP None-discipline (shared with C02-D3): lookup results and str|None results are tested with `is None`, never by truthiness - the empty prefix, the empty URI prefix and the empty identifier are legitimate values", floor=40)
+def x6(cx: Cx, ob: Ob) -> None:
+    from ..rules import scan_none_discipline
+    from .c02 import none_scope
+
+    scan_none_discipline(cx, ob, none_scope(cx))
